@@ -21,6 +21,8 @@ import (
 	"time"
 
 	"ariga.io/atlas/sql/migrate"
+	"ariga.io/atlas/sql/schema"
+	"ariga.io/atlas/sql/verifx"
 
 	"verifharness/internal/out"
 )
@@ -144,30 +146,23 @@ func repeatMain(w *out.W, tier string) {
 				if err != nil {
 					continue
 				}
-				var outs [3][]byte
-				for k := range outs {
-					func() {
-						defer func() {
-							if r := recover(); r != nil {
-								outs[k] = []byte("ERR panic")
-							}
-						}()
-						p, err := d.planner.PlanChanges(context.Background(), "det_plan", changes)
-						if err != nil {
-							outs[k] = []byte("ERR " + errClass(fmt.Errorf("plan: %w", err)))
-							return
-						}
-						outs[k] = planBytes(p)
-					}()
+				sameValuePlan(w, id, fmt.Sprintf("%s %s variant %d", d.name, sc, v), d, changes)
+			}
+		}
+		// the same with schema-level changes in the list (what a realm diff / a hand-made list holds): two
+		// schemas with the same tables, the schema-level changes in front or between the table changes
+		if d.name == "sqlite" {
+			continue // one schema per connection
+		}
+		for _, sc := range realmScenarios {
+			for v := 0; v < nVariants; v++ {
+				id := fmt.Sprintf("same-value-plan-%s-%s/%d", d.name, sc, v)
+				changes, err := mkRealmChanges(d, v, sc)
+				if err != nil {
+					w.Violation(id, "same-value-setup", fmt.Sprintf("%s %s variant %d: %v", d.name, sc, v, err))
+					continue
 				}
-				w.ImplOnly(id, "the same change-set value planned three times")
-				w.Count("same-value")
-				for k := 1; k < len(outs); k++ {
-					if !bytes.Equal(outs[0], outs[k]) {
-						w.Violation(id, "same-value-different-plan", fmt.Sprintf("%s %s variant %d: planning the same []schema.Change value again gives a different plan (call %d vs call 1): %s", d.name, sc, v, k+1, firstDiff(outs[0], outs[k])))
-						break
-					}
-				}
+				sameValuePlan(w, id, fmt.Sprintf("%s %s variant %d", d.name, sc, v), d, changes)
 			}
 		}
 	}
@@ -279,6 +274,203 @@ func repeatMain(w *out.W, tier string) {
 	concurrent(w, base, 4, "conc")
 	// (d) the same under the race detector
 	raceRun(w, tier)
+}
+
+var realmScenarios = []string{"realm-create", "realm-create-interleaved", "realm-modify", "realm-drop"}
+
+// mkRealmChanges: change lists over two schemas that hold the same tables (same names), with
+// schema-level changes. realm-create: AddSchema x2, then the tables of both; realm-create-interleaved:
+// AddSchema, its tables, AddSchema, its tables; realm-modify: ModifySchema of the first and AddSchema of
+// the second schema, then the modifications of the first and the tables of the second; realm-drop:
+// DropSchema of the second schema, then the drops of the tables of the first.
+func mkRealmChanges(d *dialect, v int, scenario string) ([]schema.Change, error) {
+	to1 := mkSchema(d, v, nil)
+	to2 := mkSchema(d, v, nil)
+	to2.Name = d.schema + "2"
+	diff := func(from, to *schema.Schema) ([]schema.Change, error) {
+		cs, err := d.differ.SchemaDiff(from, to)
+		if err != nil {
+			return nil, fmt.Errorf("diff: %w", err)
+		}
+		return cs, nil
+	}
+	attr := func() schema.Change {
+		if d.name == "mysql" {
+			return &schema.ModifyAttr{From: &schema.Charset{V: "latin1"}, To: &schema.Charset{V: "utf8mb4"}}
+		}
+		return &schema.ModifyAttr{From: &schema.Comment{Text: "old"}, To: &schema.Comment{Text: "new"}}
+	}
+	var out []schema.Change
+	switch scenario {
+	case "realm-create", "realm-create-interleaved":
+		c1, err := diff(schema.New(to1.Name), to1)
+		if err != nil {
+			return nil, err
+		}
+		c2, err := diff(schema.New(to2.Name), to2)
+		if err != nil {
+			return nil, err
+		}
+		if scenario == "realm-create" {
+			out = append(out, &schema.AddSchema{S: to1}, &schema.AddSchema{S: to2})
+			out = append(append(out, c1...), c2...)
+		} else {
+			out = append(append(out, &schema.AddSchema{S: to1}), c1...)
+			out = append(append(out, &schema.AddSchema{S: to2}), c2...)
+		}
+	case "realm-modify":
+		c1, err := diff(fromSchema(d, v), to1)
+		if err != nil {
+			return nil, err
+		}
+		c2, err := diff(schema.New(to2.Name), to2)
+		if err != nil {
+			return nil, err
+		}
+		out = append(out, &schema.ModifySchema{S: to1, Changes: []schema.Change{attr()}}, &schema.AddSchema{S: to2})
+		out = append(append(out, c1...), c2...)
+	case "realm-drop":
+		c1, err := diff(to1, schema.New(to1.Name))
+		if err != nil {
+			return nil, err
+		}
+		out = append(append(out, &schema.DropSchema{S: to2}), c1...)
+	}
+	return out, nil
+}
+
+// valueIdentity: the identity of a change list a planner must leave alone: the elements of the slice
+// and, for every ModifyTable / ModifySchema, the elements of its Changes; for every table its
+// foreign keys.
+func valueIdentity(cs []schema.Change) string {
+	var b strings.Builder
+	tab := func(t *schema.Table) {
+		fmt.Fprintf(&b, "%p:%s[", t, t.Name)
+		for _, f := range t.ForeignKeys {
+			fmt.Fprintf(&b, "%p,", f)
+		}
+		b.WriteString("]")
+	}
+	for _, c := range cs {
+		fmt.Fprintf(&b, "%T@%p", c, c)
+		switch c := c.(type) {
+		case *schema.AddTable:
+			tab(c.T)
+		case *schema.DropTable:
+			tab(c.T)
+		case *schema.ModifyTable:
+			tab(c.T)
+			for _, x := range c.Changes {
+				fmt.Fprintf(&b, " %T@%p", x, x)
+			}
+		case *schema.ModifySchema:
+			for _, x := range c.Changes {
+				fmt.Fprintf(&b, " %T@%p", x, x)
+			}
+		}
+		b.WriteString(";")
+	}
+	return b.String()
+}
+
+func changeKinds(cs []schema.Change) string {
+	var ss []string
+	for _, c := range cs {
+		s := strings.TrimPrefix(fmt.Sprintf("%T", c), "*schema.")
+		switch c := c.(type) {
+		case *schema.AddTable:
+			s += ":" + c.T.Name
+		case *schema.DropTable:
+			s += ":" + c.T.Name
+		case *schema.ModifyTable:
+			s += fmt.Sprintf(":%s/%d", c.T.Name, len(c.Changes))
+			if c.T.Schema != nil {
+				s += "@" + c.T.Schema.Name
+			}
+		}
+		ss = append(ss, s)
+	}
+	return strings.Join(ss, " ")
+}
+
+// sameValuePlan: the same []schema.Change value is planned three times (`schema apply` plans once to
+// show the plan and again in ApplyChanges) and its table changes go through DetachCycles + SortChanges
+// twice: every plan must be the first one, and the value must be what it was.
+func sameValuePlan(w *out.W, id, what string, d *dialect, changes []schema.Change) {
+	ident := valueIdentity(changes)
+	var outs [3][]byte
+	for k := range outs {
+		func() {
+			defer func() {
+				if r := recover(); r != nil {
+					outs[k] = []byte("ERR panic")
+				}
+			}()
+			p, err := d.planner.PlanChanges(context.Background(), "det_plan", changes)
+			if err != nil {
+				outs[k] = []byte("ERR " + errClass(fmt.Errorf("plan: %w", err)))
+				return
+			}
+			outs[k] = planBytes(p)
+		}()
+	}
+	w.ImplOnly(id, "the same change-set value planned three times")
+	w.Count("same-value")
+	for k := 1; k < len(outs); k++ {
+		if !bytes.Equal(outs[0], outs[k]) {
+			w.Violation(id, "same-value-different-plan", fmt.Sprintf("%s: planning the same []schema.Change value again gives a different plan (call %d vs call 1): %s", what, k+1, firstDiff(outs[0], outs[k])))
+			break
+		}
+	}
+	if valueIdentity(changes) != ident {
+		w.Violation(id, "same-value-input-mutated", fmt.Sprintf("%s: PlanChanges changed the []schema.Change value it was given (its elements, the Changes of a ModifyTable / ModifySchema, or a table's foreign keys)", what))
+		ident = valueIdentity(changes)
+	}
+	if d.name == "sqlite" {
+		return // the SQLite planner does not use DetachCycles / SortChanges
+	}
+	// the sort itself, on what topLevel leaves: the table changes
+	var tables []schema.Change
+	for _, c := range changes {
+		switch c.(type) {
+		case *schema.AddSchema, *schema.DropSchema, *schema.ModifySchema:
+		default:
+			tables = append(tables, c)
+		}
+	}
+	tident := valueIdentity(tables)
+	var sorts [2]string
+	for k := range sorts {
+		func() {
+			defer func() {
+				if r := recover(); r != nil {
+					sorts[k] = "ERR panic"
+				}
+			}()
+			dc, err := verifx.DetachCycles(tables)
+			if err != nil {
+				sorts[k] = "ERR detach"
+				return
+			}
+			di := valueIdentity(dc)
+			s1 := changeKinds(verifx.SortChanges(dc, nil))
+			s2 := changeKinds(verifx.SortChanges(dc, nil))
+			if s1 != s2 {
+				w.Violation(id, "same-value-different-plan", fmt.Sprintf("%s: SortChanges of the same detached list gives %s, then %s", what, trunc(s1, 300), trunc(s2, 300)))
+			}
+			if valueIdentity(dc) != di {
+				w.Violation(id, "same-value-input-mutated", fmt.Sprintf("%s: SortChanges changed the slice it was given", what))
+			}
+			sorts[k] = s1
+		}()
+	}
+	w.Count("same-value-sort")
+	if sorts[0] != sorts[1] {
+		w.Violation(id, "same-value-different-plan", fmt.Sprintf("%s: DetachCycles+SortChanges of the same value gives %s, then %s", what, trunc(sorts[0], 300), trunc(sorts[1], 300)))
+	}
+	if valueIdentity(tables) != tident {
+		w.Violation(id, "same-value-input-mutated", fmt.Sprintf("%s: DetachCycles+SortChanges changed the []schema.Change value it was given", what))
+	}
 }
 
 // concurrent runs every operation in its own goroutine, `rounds` times, all at once, next to
